@@ -379,6 +379,10 @@ def run(ctx):
         k = min(300, n - done)
         run_cases(ctx, gen_cases(ctx, k, depth))
         done += k
+    for mode in (True, "newtype", "typealias"):
+        if ctx.time_left() > 60:
+            with ctx.wrapped(mode):
+                run_cases(ctx, gen_cases(ctx, 120 if ctx.tier == "quick" else 2000, depth))
     run_namesakes(ctx, 40 if ctx.tier == "quick" else 600)
     ctx.assumptions += [
         "exceptions are compared by success/failure only between entry points (their classes differ by design: InvalidFieldValue in field position, ValueError at a codec's top level)",
